@@ -19,6 +19,8 @@ from .pool_base import pool_lib, MISSING
 from .selection import rand_argmax_contract
 
 FC = "skactiveml/pool/_core_set.py"
+import os
+DIAG = bool(os.environ.get("DIAG"))
 GHc = z3.Function("GH_coreset", I, z3.ArraySort(I, B))
 
 
@@ -83,15 +85,20 @@ def unit_k_greedy_center(rows=False):
         mp.strictly_increasing = True
         st.assume(z3.ForAll([t, u], z3.Implies(z3.And(0 <= t, t < u, u < m), to_int(mp.sel(t)) < to_int(mp.sel(u)))))
         st.assume(z3.ForAll([t], z3.Implies(z3.And(0 <= t, t < m), z3.And(0 <= to_int(mp.sel(t)), to_int(mp.sel(t)) < N))))
-        in_map = lambda jj: z3.Exists([t], z3.And(0 <= t, t < m, to_int(mp.sel(t)) == jj))
+        if rows:
+            in_map = lambda jj: z3.And(0 <= jj, jj < m)              # mapping = arange(m)
+        else:
+            in_map = lambda jj: z3.Exists([t], z3.And(0 <= t, t < m, to_int(mp.sel(t)) == jj))
         sel0 = lambda jj: z3.And(in_map(jj), MISSING(yd.sel(jj).sym, ml.sym))
         A0 = mask_array(sel0)
         NC = m if rows else N                      # number of utility columns
-        cnt0 = CNT(A0, NC)
+        cnt0 = z3.Int("cnt0")                       # named, so that facts about it survive when lambda-carrying hypotheses are dropped
+        st.assume(cnt0 == CNT(A0, NC))
         for f in cnt_lemma_instances(A0, NC):
             st.assume(f)
         st.assume(GHc(0) == A0)
         st.assume(bs >= 1, bs <= cnt0)
+        st.assume(cnt0 <= NC)                       # instance of lemmas.cnt.bounds (also among cnt_lemma_instances, restated lambda-free)
         rng = st.alloc(RngData(z3.Function("rng_stream", I, R), z3.Int("pos0"), z3.Int("aux0")))
         ctx = {"NC": NC, "N": N, "m": m, "bs": bs, "y": yd, "ml": ml, "mp": mp, "sel0": sel0, "A0": A0, "cnt0": cnt0, "in_map": in_map}
 
@@ -105,7 +112,7 @@ def unit_k_greedy_center(rows=False):
             inr = z3.And(0 <= j, j < NC)
             return [
                 ("shapes", z3.And(to_int(U.shape[0]) == bs, to_int(U.shape[1]) == NC, to_int(s.get(s.env["query_indices"]).shape[0]) == bs)),
-                ("ghost_def", z3.ForAll([t], z3.Implies(z3.And(0 <= t, t < k), GHc(t + 1) == z3.Store(GHc(t), q_at(s, t), False)))),
+                ("ghost_def", z3.ForAll([t], z3.Implies(z3.And(1 <= t, t <= k), GHc(t) == z3.Store(GHc(t - 1), q_at(s, t - 1), False)))),
                 ("ghost_subset", z3.ForAll([t, j], z3.Implies(z3.And(0 <= t, t <= k, inr, GHc(t)[j]), A0[j]))),
                 ("picks_valid", z3.ForAll([t], z3.Implies(z3.And(0 <= t, t < k), z3.And(0 <= q_at(s, t), q_at(s, t) < NC, GHc(t)[q_at(s, t)])))),
                 ("picks_stay_masked", z3.ForAll([t, t2], z3.Implies(z3.And(0 <= t, t < t2, t2 <= k), z3.Not(GHc(t2)[q_at(s, t)])))),
